@@ -587,10 +587,32 @@ def route_fails(route, v):
     return (f"{route}: {cls}: {reason}", f"{reason} (at {cls} {sub!r})", got)
 
 
-def shrink_value(v, fails):
-    """greedy structural shrink of a failing literal; `fails(v)` -> bool"""
+def vsize(v):
+    if isinstance(v, str):
+        return 1 + len(v)
+    if isinstance(v, list):
+        return 1 + sum(vsize(x) for x in v)
+    if isinstance(v, dict):
+        return 1 + sum(vsize(k) + vsize(x) for k, x in v.items())
+    return 1
+
+
+def shrink_value(v, fails, budget=400):
+    """greedy structural shrink of a failing literal; `fails(v)` -> bool.  Every accepted step strictly
+    decreases vsize, and at most `budget` candidates are tried."""
+    tried = [0]
+
+    def ok(c):
+        tried[0] += 1
+        if tried[0] > budget:
+            return False
+        try:
+            return fails(c)
+        except Exception:
+            return False
+
     changed = True
-    while changed:
+    while changed and tried[0] <= budget:
         changed = False
         cands = []
         if isinstance(v, list):
@@ -599,24 +621,18 @@ def shrink_value(v, fails):
             cands += list(v.values()) + [{k: x for k, x in v.items() if k != d} for d in v]
             cands += [{k: 1} for k in v]
         for c in cands:
-            try:
-                if fails(c):
-                    v, changed = c, True
-                    break
-            except Exception:
-                pass
+            if vsize(c) < vsize(v) and ok(c):
+                v, changed = c, True
+                break
     if isinstance(v, str):
-        chars = shrink_list(list(v), lambda cs: fails("".join(cs)))
-        v = "".join(chars)
+        v = "".join(shrink_list(list(v), lambda cs: ok("".join(cs))))
     elif isinstance(v, dict) and len(v) == 1:
         (k, x), = v.items()
-        chars = shrink_list(list(k), lambda cs: fails({"".join(cs): x}))
-        v = {"".join(chars): x}
+        v = {"".join(shrink_list(list(k), lambda cs: ok({"".join(cs): x}))): x}
     elif isinstance(v, list):
         for i, x in enumerate(v):
             if isinstance(x, str):
-                chars = shrink_list(list(x), lambda cs: fails(v[:i] + ["".join(cs)] + v[i + 1:]))
-                v = v[:i] + ["".join(chars)] + v[i + 1:]
+                v = v[:i] + ["".join(shrink_list(list(x), lambda cs: ok(v[:i] + ["".join(cs)] + v[i + 1:])))] + v[i + 1:]
     return v
 
 
